@@ -54,7 +54,7 @@ Definition pb_norm_opts (d : Z) (o : opts) : opts :=
 Definition pb_norm (p : pin) : pin :=
   mk_pin (pb_norm_opts (p_depth p) (p_opts p)) (p_cid p) (p_ty p) (p_allocs p) (p_depth p) (p_ref p).
 
-(* ---- PinOptions.Equals, as written (after 5a1feec) ---- *)
+(* ---- PinOptions.Equals, as written (after 5a1feec and fix-S4b: metadata and origins looked up in both directions) ---- *)
 Fixpoint insN (x : N) (l : list N) : list N :=
   match l with [] => [x] | y :: ys => if (x <=? y)%N then x :: l else y :: insN x ys end.
 Definition sortN (l : list N) : list N := fold_right insN [] l.
@@ -80,7 +80,8 @@ Definition opts_equal (a b : opts) : bool :=
   && forallb (fun kv => (fst kv =? 0)%N || is_some (aget (fst kv) (o_meta a))) (o_meta b)
   (* Update deliberately ignored *)
   && Nat.eqb (length (o_origins a)) (length (o_origins b))
-  && forallb (fun x => memN x (o_origins b)) (o_origins a).
+  && forallb (fun x => memN x (o_origins b)) (o_origins a)
+  && forallb (fun x => memN x (o_origins a)) (o_origins b).
 
 (* ---- configuration and environment ---- *)
 Record cfg := mk_cfg { def_min : Z; def_max : Z; follower : bool; alloc_rev : bool }.
